@@ -742,6 +742,23 @@ func (multi *MultiEpoch) processSlotTransactions(
 	gsfaReadersLoaded bool,
 ) error {
 
+	// Parse the client-supplied account strings once; a malformed one is the client's error.
+	var includeKeys, excludeKeys, requiredKeys []solana.PublicKey
+	if filter != nil {
+		for _, list := range []struct {
+			in  []string
+			out *[]solana.PublicKey
+		}{{filter.AccountInclude, &includeKeys}, {filter.AccountExclude, &excludeKeys}, {filter.AccountRequired, &requiredKeys}} {
+			for _, acc := range list.in {
+				pkey, err := solana.PublicKeyFromBase58(acc)
+				if err != nil {
+					return status.Errorf(codes.InvalidArgument, "invalid account %q in filter: %v", acc, err)
+				}
+				*list.out = append(*list.out, pkey)
+			}
+		}
+	}
+
 	filterOutTxn := func(tx solana.Transaction, meta any) bool {
 		if filter == nil {
 			return true
@@ -760,11 +777,10 @@ func (multi *MultiEpoch) processSlotTransactions(
 
 		if !gsfaReadersLoaded { // Only needed if gsfaReaders not loaded, otherwise handled in the main branch
 			hasOne := false
-			for _, acc := range filter.AccountInclude {
-				pkey := solana.MustPublicKeyFromBase58(acc)
+			for _, pkey := range includeKeys {
 				ok, err := tx.HasAccount(pkey)
 				if err != nil {
-					klog.V(2).Infof("Failed to check if transaction %v has account %s", tx, acc)
+					klog.V(2).Infof("Failed to check if transaction %v has account %s", tx, pkey)
 					return false
 				}
 				if ok {
@@ -777,11 +793,10 @@ func (multi *MultiEpoch) processSlotTransactions(
 			}
 		}
 
-		for _, acc := range filter.AccountExclude {
-			pkey := solana.MustPublicKeyFromBase58(acc)
+		for _, pkey := range excludeKeys {
 			ok, err := tx.HasAccount(pkey)
 			if err != nil {
-				klog.V(2).Infof("Failed to check if transaction %v has account %s", tx, acc)
+				klog.V(2).Infof("Failed to check if transaction %v has account %s", tx, pkey)
 				return false
 			}
 			if ok { // If any excluded account is present, filter out the transaction
@@ -789,11 +804,10 @@ func (multi *MultiEpoch) processSlotTransactions(
 			}
 		}
 
-		for _, acc := range filter.AccountRequired {
-			pkey := solana.MustPublicKeyFromBase58(acc)
+		for _, pkey := range requiredKeys {
 			ok, err := tx.HasAccount(pkey)
 			if err != nil {
-				klog.V(2).Infof("Failed to check if transaction %v has account %s", tx, acc)
+				klog.V(2).Infof("Failed to check if transaction %v has account %s", tx, pkey)
 				return false
 			}
 			if !ok { // If any required account is missing, filter out the transaction
@@ -878,17 +892,15 @@ func (multi *MultiEpoch) processSlotTransactions(
 		const maxConcurrentAccounts = 10
 		sem := make(chan struct{}, maxConcurrentAccounts)
 
-		for _, account := range filter.AccountInclude {
+		for _, account := range includeKeys {
 			sem <- struct{}{} // Acquire token
 			wg.Add(1)
 
-			go func(acc string) {
+			go func(pKey solana.PublicKey) {
 				defer func() {
 					<-sem // Release token
 					wg.Done()
 				}()
-
-				pKey := solana.MustPublicKeyFromBase58(acc)
 
 				queryCtx, cancel := context.WithTimeout(ctx, 30*time.Second)
 				defer cancel()
